@@ -230,7 +230,7 @@ func (f *Filter) hitTube(tubeIndex, q int) error {
 // Called when end of a tube is reached
 // A point in the tube -- the point with maximal q -- is (Tlen-1,q-1).
 func (f *Filter) tubeEnd(q int) error {
-	diagIndex := f.diagIndex(f.target.Len()-1, q-1)
+	diagIndex := f.diagIndex(f.target.Len()-1, q-1) - f.maxError
 	tubeIndex := f.tubeIndex(diagIndex)
 	tube := &f.tubes[tubeIndex%cap(f.tubes)]
 
